@@ -76,7 +76,7 @@ class Tr:
         if isinstance(node, ast.Name):
             return self.types.get(lname(node.id))
         if isinstance(node, ast.Call) and src(node.func) == 'numpy.exp':
-            return 'AR'
+            return 'AR' if 'exp_fn' not in self.spec else 'Rat'
         if isinstance(node, ast.Subscript):
             t = self.ty(node.value)
             if t and t.startswith('List '):
@@ -131,7 +131,9 @@ class Tr:
             if isinstance(op, ast.Mod):
                 return '(Src.pmod %s %s)' % (a, b)
             if isinstance(op, ast.Div):
-                return '(%s / %s)' % (a, b)
+                return '((%s : Rat) / (%s : Rat))' % (a, b)
+            if isinstance(op, ast.Pow) and src(node.right) == '2':
+                return '(%s * %s)' % (a, a)
             raise Unsupported('binary operator in ' + s)
         if isinstance(node, ast.BoolOp):
             j = ' && ' if isinstance(node.op, ast.And) else ' || '
@@ -150,12 +152,17 @@ class Tr:
             base = node.value
             if isinstance(node.slice, ast.Slice):
                 raise Unsupported('slice ' + s)
+            if self.ty(node.slice) == 'Bool':
+                # boolean-mask read of a componentwise (scalar-modelled) array: the masked component
+                return self.expr(base)
             return '(Src.get %s %s)' % (self.expr(base), self.expr(node.slice))
         if isinstance(node, ast.Call):
             f = src(node.func)
             args = node.args
             if f == 'numpy.exp' and len(args) == 1:
-                return '(AR.exp %s)' % self.expr(args[0])
+                return '(%s %s)' % (self.spec.get('exp_fn', 'AR.exp'), self.expr(args[0]))
+            if f == 'int' and len(args) == 1 and self.ty(args[0]) == 'Bool':
+                return '(if %s then 1 else 0)' % self.expr(args[0])
             if f == 'numpy.diff' and len(args) == 1:
                 return '(Src.diff %s)' % self.expr(args[0])
             if f == 'numpy.arange' and len(args) == 1:
@@ -229,6 +236,9 @@ class Tr:
             bname = self.bind.get(src(base)) or (lname(base.id) if isinstance(base, ast.Name) else None)
             if bname is None:
                 raise Unsupported('item assignment to ' + src(base))
+            if self.ty(t.slice) == 'Bool':
+                # boolean-mask assignment on a componentwise (scalar-modelled) array
+                return '%slet %s := if %s then %s else %s\n%s' % (ind, bname, self.expr(t.slice), val_text, bname, rest)
             return '%slet %s := Src.set %s %s %s\n%s' % (ind, bname, bname, self.expr(t.slice), val_text, rest)
         raise Unsupported('assignment target ' + st)
 
@@ -254,8 +264,10 @@ class Tr:
             return k(ind)
         if isinstance(st, ast.Expr) and isinstance(st.value, ast.Constant) and isinstance(st.value.value, str):
             return nxt(ind)
-        if s in self.skip:
-            self.notes.append('statement not modelled: ' + s.split('\n')[0])
+        if any(s == k or (k.endswith('...') and s.startswith(k[:-3])) for k in self.skip):
+            note = 'statement not modelled: ' + s.split('\n')[0]
+            if note not in self.notes:
+                self.notes.append(note)
             return nxt(ind)
         if isinstance(st, ast.Expr) and s in self.effects:
             return '%slet %s\n%s' % (ind, self.effects[s], nxt(ind))
@@ -289,7 +301,8 @@ class Tr:
         if isinstance(st, ast.If):
             c = src(st.test)
             if c in self.assume_false:
-                self.notes.append('branch assumed not taken: if ' + c)
+                if 'branch assumed not taken: if ' + c not in self.notes:
+                    self.notes.append('branch assumed not taken: if ' + c)
                 return self.block(list(st.orelse) + rest, k, ind)
             pre = self.with_draws(st.test, ind)
             cond = self.expr(st.test)
@@ -420,6 +433,70 @@ KERNELS = [
          params=[('raw', 'Int'), ('k', 'Int'), ('dur', 'Int'), ('startStep', 'Option Int'),
                  ('lp', 'Rat')], ret='Rat',
          bind={'self._call_jump()': 'callJump raw k dur startStep', 'self._logpdf(xi, givenx)': 'lp'}),
+    # --- adaptation recursions (C13, C14, C19): window guards and the scalar update formulas; numpy arrays
+    #     are modelled componentwise (one component shown), decays / exp / sqrt enter as oracle values
+    dict(name='veitchUpdate', file='epsie/proposals/normal.py', cls='AdaptiveSupport', func='_update',
+         params=[('nsteps', 'Int'), ('start_step', 'Int'), ('T', 'Int'), ('accepted', 'Bool'), ('xi', 'Rat'),
+                 ('g', 'Rat'), ('delta', 'Rat'), ('sigma', 'Rat')], ret='Rat',
+         bind={'self.nsteps': 'nsteps', 'self.start_step': 'start_step', 'self.adaptation_duration': 'T',
+               'dk ** (-self.adaptation_decay) - 0.1': 'g', "chain.acceptance[-1]['accepted']": 'accepted',
+               'self.target_rate': 'xi', 'self.deltas': 'delta', 'self._std': 'sigma'},
+         types={'lzidx': 'Bool'}, skip=['self._update_proposal()'], result='sigma'),
+    dict(name='atUpdate', file='epsie/proposals/normal.py', cls='ATAdaptiveSupport', func='_update',
+         params=[('nsteps', 'Int'), ('start_step', 'Int'), ('T', 'Int'), ('componentwise', 'Bool'),
+                 ('diagonal', 'Bool'), ('xi', 'Rat'), ('g', 'Rat'), ('ar', 'Rat'), ('cw', 'Rat'), ('x', 'Rat'),
+                 ('dfdf', 'Rat'), ('log_lambda', 'Rat'), ('mean', 'Rat'), ('unit_cov', 'Rat')],
+         ret='Rat × Rat × Rat',
+         bind={'self.nsteps': 'nsteps', 'self.start_step': 'start_step', 'self.adaptation_duration': 'T',
+               'dk ** (-0.6) - self._decay_const': 'g', "chain.acceptance['acceptance_ratio'][-1]": 'ar',
+               'self.target_rate': 'xi', 'self._iscomponentwise': 'componentwise', 'self.isdiagonal': 'diagonal',
+               'self._componentwise_scaling(chain, dk)': 'cw',
+               'numpy.array([chain.current_position[p] for p in self.parameters])': 'x',
+               'numpy.matmul(df, df.T)': 'dfdf',
+               'self._log_lambda': 'log_lambda', 'self._mean': 'mean', 'self._unit_cov': 'unit_cov',
+               'numpy.sqrt(numpy.exp(self._log_lambda) * self._unit_cov)': 'unit_cov',
+               'numpy.exp(self._log_lambda) * self._unit_cov': 'unit_cov',
+               'numpy.matmul(numpy.matmul(Lambda, self._unit_cov), Lambda)': 'unit_cov',
+               'numpy.diag(numpy.exp(self._log_lambda)) ** 0.5': 'log_lambda',
+               'self._std': 'derived_std', 'self._cov': 'derived_cov'},
+         skip=['self._update_proposal()', 'df = df.reshape(-1, 1)'],
+         result='(log_lambda, mean, unit_cov)'),
+    dict(name='eigUpdate', file='epsie/proposals/eigenvector.py', cls='AdaptiveEigenvectorSupport', func='_update',
+         params=[('nsteps', 'Int'), ('start_step', 'Int'), ('T', 'Int'), ('xi', 'Rat'), ('g', 'Rat'), ('ar', 'Rat'),
+                 ('log_lambda', 'Rat')], ret='Bool × Rat',
+         bind={'self.nsteps': 'nsteps', 'self.start_step': 'start_step', 'self.adaptation_duration': 'T',
+               'dk ** (-0.6) - self._decay_const': 'g', "chain.acceptance['acceptance_ratio'][-1]": 'ar',
+               'self.target_rate': 'xi', 'self._log_lambda': 'log_lambda'},
+         effects={'self.recursive_covariance(chain)': 'covUpdated := true'},
+         skip=['self.eigvals, self.eigvects = numpy.linalg.eigh(self._cov)',
+               'self.eigvals *= numpy.exp(self._log_lambda)'],
+         prelude='let covUpdated := false', result='(covUpdated, log_lambda)'),
+    dict(name='vmfUpdate', file='epsie/proposals/solid_angle.py', cls='AdaptiveIsotropicSolidAngleSupport',
+         func='_update',
+         params=[('nsteps', 'Int'), ('start_step', 'Int'), ('T', 'Int'), ('xi', 'Rat'), ('g', 'Rat'), ('ar', 'Rat'),
+                 ('log_kappa', 'Rat')], ret='Rat',
+         bind={'self.nsteps': 'nsteps', 'self.start_step': 'start_step', 'self.adaptation_duration': 'T',
+               'dk ** (-0.6) - self._decay_const': 'g', "chain.acceptance['acceptance_ratio'][-1]": 'ar',
+               'self.target_rate': 'xi', 'self._log_kappa': 'log_kappa'},
+         skip=['self.kappa = numpy.exp(self._log_kappa)', 'self.norm = self._normalisation(self.kappa)'],
+         result='log_kappa'),
+    dict(name='ssUpdate', file='epsie/proposals/normal.py', cls='SSAdaptiveSupport', func='_update',
+         params=[('nsteps', 'Int'), ('start_step', 'Int'), ('accepted', 'Bool'), ('diagonal', 'Bool'), ('xi', 'Rat'),
+                 ('EXP', 'Rat → Rat'), ('SQRT', 'Rat → Rat'), ('mx', 'Rat'), ('max_std', 'Rat'),
+                 ('n_accepted', 'Int'), ('scale', 'Rat')], ret='Int × Rat',
+         types={'accepted': 'Bool', 'alpha': 'Rat', 'cap': 'Rat'},
+         bind={'self.nsteps': 'nsteps', 'self.start_step': 'start_step', "chain.acceptance[-1]['accepted']": 'accepted',
+               'self.target_rate': 'xi', 'self.n_accepted': 'n_accepted', 'self.isdiagonal': 'diagonal',
+               'alpha ** 0.5': 'SQRT alpha', 'self._std.max()': 'mx', 'self._cov.max()': 'mx',
+               'self.max_std': 'max_std', 'self._std': 'scale', 'self._cov': 'scale', 'max_std': 'cap', 'max_cov': 'cap'},
+         exp_fn='EXP', skip=['self._update_proposal()'], result='(n_accepted, scale)'),
+    dict(name='resetStart', file='epsie/proposals/base.py', cls='BaseAdaptiveSupport', func='_reset_adaptation',
+         params=[('raw', 'Int'), ('k', 'Int')], ret='Int',
+         assume_false=['self._initial_proposal_params is None'],
+         bind={'self.nsteps': 'nsteps raw k',
+               'self.start_step': 'start_step'},
+         skip=['for attr, val in self._initial_proposal_params.items():...'],
+         result='start_step'),
     # --- epsie/chain/base.py, chain.py: length, index arithmetic, the acceptance rule (C08, C01)
     dict(name='chainLen', file='epsie/chain/base.py', cls='BaseChain', func='__len__',
          params=[('iteration', 'Int'), ('lastclear', 'Int')], ret='Int',
@@ -574,7 +651,7 @@ def generate():
     parts = ['/-\n  GENERATED by harness/gen_source.py from the Python sources under %s -- do not edit.\n'
              '  Each definition is the translation of one method (or of the named statements of one method);\n'
              '  the tie theorems are in EpsieProps/*Source.lean.\n-/\n'
-             'import EpsieModel.SrcPrelude\nnamespace Epsie\nnamespace Gen\n' % 'the repository']
+             'import EpsieModel.SrcPrelude\nset_option linter.unusedVariables false\nnamespace Epsie\nnamespace Gen\n' % 'the repository']
     status = {}
     for spec in KERNELS:
         try:
